@@ -40,11 +40,19 @@ pub struct Fail {
     /// stable class of the failure, matched against /verif/known_findings.json
     pub signature: String,
     pub detail: String,
+    /// a self-contained case to save as the replay instead of the generated one (e.g. the two
+    /// colliding positions of C05, one of which came from an earlier case)
+    #[serde(default)]
+    pub replay_case: Option<Value>,
 }
 
 impl Fail {
     pub fn new(signature: &str, detail: String) -> Fail {
-        Fail { signature: signature.to_string(), detail }
+        Fail { signature: signature.to_string(), detail, replay_case: None }
+    }
+    pub fn with_case(mut self, case: Value) -> Fail {
+        self.replay_case = Some(case);
+        self
     }
 }
 
